@@ -488,7 +488,7 @@ pub fn dirichlet_test(spec: &DistSpec, n: u64, seed: u64) -> Result<(LawOut, u64
     {
         let mut a = SimRng::new(mix(&[seed, 9]));
         let mut b = a.clone();
-        for k in 0..512 {
+        for k in 0..(200_000 / alpha.len() as u64).max(2_000) {
             mark_call(k);
             a.budget = a.pos + 1_000_000;
             b.budget = a.budget;
